@@ -20,6 +20,7 @@ use std::net::{Ipv4Addr, SocketAddr};
 use std::sync::Arc;
 
 include!(concat!(env!("OUT_DIR"), "/wrappers_gen.rs"));
+include!(concat!(env!("OUT_DIR"), "/magic_keys_gen.rs"));
 
 #[derive(Clone, Copy, Debug, PartialEq, Eq, Hash)]
 pub enum Family {
